@@ -18,15 +18,15 @@ EXTRA = {
     "C06": " Every solver weight vanishes outside the validity mask (R-MASK: the sanitised placeholder does not shift with the series); ws2d is one straight-line algorithm; "
            "the asymmetric fixed-lambda smoother re-weights until the curve itself stops changing (IRLS descriptor shared with C03).",
     "C07": TRUTHY + " The 90%-zeros test compares the ratio of counts itself with 0.9 (no float arithmetic on the compared side).",
-    "C08": TRUTHY + " The 90%-zeros test compares the ratio itself with 0.9." + " Every pixel/group iteration of the SPI drivers leaves a defined value in the output (nodata-prefilled or must-write per iteration).",
+    "C08": TRUTHY + " The 90%-zeros test compares the ratio itself with 0.9." + " Every pixel/group iteration of the SPI drivers leaves a defined value in the output (nodata-prefilled or must-write per iteration); inside the cell loop arrays are addressed at the current cell only (no neighbouring cell enters an index).",
     "C09": TRUTHY + " Explicit casts of kernel arguments equal the element type the kernel declares.",
     "C10": TRUTHY + " The kernel without nodata handling is selected exactly when the nodata attribute is None.",
     "C12": " No gufunc signature declares a contiguous layout (R-LAYOUT: strided views are passed to the inner loops).",
-    "C13": " No gufunc signature declares a contiguous layout (NB-LAYOUT); prange iterations share no written state (NB-PRANGE).",
+    "C13": " No gufunc signature declares a contiguous layout (NB-LAYOUT); prange iterations share no written state (NB-PRANGE); NB-PROMOTE also covers accumulators that start from an int literal and take narrow-integer operands.",
     "C15": TRUTHY + " The time-first arm labels its result with the remaining dims in order and every coordinate but time.",
     "C16": " The NaN->nodata substitution reaches both kernel sites unconditionally; the result is labelled (first dim and its coordinate, zone ids, [mean, valid]); R-STATELESS.",
     "C17": TRUTHY + " mean_grp accessor: group ids are converted to the kernel's declared element type, num_groups is the number of distinct ids, label length is validated; "
-           "the value scattered for a group is defined in that group's own iteration (R-LOOPCARRY).",
+           "the value scattered for a group is defined in that group's own iteration (R-LOOPCARRY); rolling_sum: the cell (or the scalar accumulator stored into it) is reset per position and only ever added to.",
     "C19": " begin/end labels are tested with `is None`, never for truth (0 is a legitimate label) and looked up exactly as given; R-STATELESS (no cached index).",
     "C20": " The gufunc signature declares arbitrary strides for every array (R-LAYOUT); ws2d is one straight-line algorithm; R-STATELESS.",
 }
